@@ -394,6 +394,65 @@ class RunChild(Stage):
         return res
 
 
+class GdbInnerOptions(Stage):
+    """the options before -g are *interpreted* by the instance inside GDB: the real gdb is started in batch mode through main.py and
+    asked `wl help filter`, `wl filter`, `wl breakpoint`: colour follows -C / --no-color / --color (on by default inside gdb), the filter
+    and breakpoint matchers are the ones given with -f / -b"""
+    name = 'gdb-inner-options'
+
+    def examples(self, tier):
+        return 8 if tier == 'quick' else 14 * 10
+
+    def gen(self, d, tier):
+        colour = d.choice([[], ['-C'], ['--no-color'], ['--color'], ['-C', '--color'], 'cluster'])
+        f = d.choice([None, 'wl_pointer ! .motion', 'xdg_toplevel', '.commit, .frame'])
+        b = d.choice([None, None, 'wl_display.sync', '! .frame'])
+        return dict(colour=colour, f=f, b=b, marker=d.choice(['-g', '--gdb']), order=d.int(0, 1))
+
+    def execute(self, case):
+        res = Result()
+        res.evals = 1
+        if cli.real_gdb() is None:
+            res.label('no-gdb(inconclusive)')
+            return res
+        opts = []
+        if case['f']: opts += ['-f', case['f']]
+        if case['b']: opts += ['-b', case['b']]
+        marker = [case['marker']]
+        if case['colour'] == 'cluster':
+            marker = ['-Cg']
+        elif case['order']:
+            opts = opts + list(case['colour'])
+        else:
+            opts = list(case['colour']) + opts
+        rc, out, err = cli.run_main(opts + marker + ['-batch', '-nx', '-ex', 'wl help filter', '-ex', 'wl filter', '-ex', 'wl breakpoint'], stdin=b'', timeout=60)
+        if rc is None:
+            res.label('timeout(inconclusive)')
+            return res
+        text = (out + err).decode('utf-8', 'replace')
+        if 'Show the current output filter matcher' not in text:
+            res.label('plugin-did-not-answer(inconclusive)')
+            res.count('inconclusive-runs')
+            return res
+        inner = text[text.index('Show the current output filter matcher') - 40:]
+        no_colour = case['colour'] == 'cluster' or '-C' in case['colour'] or '--no-color' in case['colour']
+        has = '\x1b[' in inner
+        if has == no_colour:
+            res.bad('inner-instance-colour', 'started with %r: the instance inside gdb answers %s colour: %r' % (opts + marker, 'with' if has else 'without', inner[:120]))
+        from core import matcher
+        from core.util import no_color
+        plain = no_color(inner)
+        for key, label, default in (('f', 'Output filter: ', '*'), ('b', 'Breakpoint matcher: ', '!')):
+            want = no_color(str(matcher.parse(case[key]).simplify())) if case[key] else default
+            got = [l[len(label):] for l in plain.split('\n') if l.startswith(label)]
+            if got != [want]:
+                res.bad('inner-instance-matcher:' + key, 'started with %r: `wl %s` inside gdb says %r, expected %r' % (opts + marker, 'filter' if key == 'f' else 'breakpoint', got, want))
+        res.nontrivial = bool(case['colour']) or bool(case['f'])
+        res.label('colour-option:' + ('cluster' if case['colour'] == 'cluster' else '+'.join(case['colour']) or 'none'))
+        res.sample = dict(argv=opts + marker)
+        return res
+
+
 class C19(Prop):
     id = 'C19'
     rule = ('split: argument vectors = prefix of wayland-debug options (flags, clusters of single-letter flags, valued options with separate '
@@ -405,7 +464,7 @@ class C19(Prop):
             'option look-alike after; distinct by SHA-1 of the vector.')
     assumptions = ['option values are separate words not starting with "-" (attached values such as -fVALUE are outside the statement)',
                    'clusters are made of single-letter flags (C, p) with the marker letter last']
-    stages = [Split(), GdbShim(), RunChild()]
+    stages = [Split(), GdbShim(), GdbInnerOptions(), RunChild()]
 
 
 PROP = C19()
